@@ -1,4 +1,4 @@
-"""developer driver: python3-vt -m gdtv.dev <ssa.json> [function-substring]"""
+"""developer driver: python3-vt -m gdtv.dev <ssa.json> [substring]"""
 import sys, time, traceback
 from .ir import IR
 from .verify import Engine
@@ -12,11 +12,16 @@ def main():
         print("CONTRACT ERROR", e)
     pat = sys.argv[2] if len(sys.argv) > 2 else ""
     for d in eng.decls:
-        if d.kind != "func" or pat not in d.name:
+        if d.kind not in ("func", "lemma") or pat not in d.name:
+            continue
+        if d.kind == "func" and ("effectfree" in d.flags or "assumed" in d.flags):
             continue
         t0 = time.time()
         try:
-            info = eng.verify_function(d)
+            if d.kind == "lemma":
+                eng.verify_lemma(d); info = "lemma"
+            else:
+                info = eng.verify_function(d)
             print("== %s: %s (%.2fs)" % (d.name, info, time.time() - t0))
         except (Unsupported, SpecError) as e:
             print("== %s: UNSUPPORTED %s" % (d.name, e))
@@ -27,11 +32,14 @@ def main():
             eng.cur = None
     for o in eng.obls.values():
         if pat and pat not in o.name: continue
+        if o.verdict == "discharged" and o.covered is not False and "-v" not in sys.argv: continue
         print("  %-10s %s inst=%d ms=%.0f %s" % (o.verdict, o.name, o.instances, o.ms, "" if o.covered is not False else "VACUOUS-ANTECEDENT"))
-        for f in o.failed[:2]:
+        for f in o.failed[:3]:
             print("      FAIL", {k: v for k, v in f.items() if k != "smt2"})
-        for f in o.unknown[:2]:
+        for f in o.unknown[:3]:
             print("      UNKNOWN", {k: v for k, v in f.items() if k != "smt2"})
+    n = sum(1 for o in eng.obls.values() if o.verdict == "discharged")
+    print("obligations %d discharged %d" % (len(eng.obls), n))
     print("stats", dict(eng.stats))
     print("unmodelled", sorted(eng.unmodelled))
     for e in eng.errors: print("ERR", e)
